@@ -5,6 +5,7 @@ import (
 	"bytes"
 	"encoding/binary"
 	"fmt"
+	"hash/crc32"
 	"math/rand"
 	"os"
 	"os/exec"
@@ -32,6 +33,7 @@ import (
 func init() {
 	register("C08", &Check{Level: "exploration", Race: true, Run: runC08})
 	Children["c08-setter"] = c08Child
+	Children["c08-faulty"] = c08FaultyChild
 }
 
 // Children are entry points run in a child process: vrun -child <name> args...
@@ -478,7 +480,7 @@ func c08Kill(c *evid.Ctx, seed int64) {
 }
 
 func runC08(c *evid.Ctx) {
-	c.Rule("(a) sequential lock-step of Set/Get/SetUint64/GetUint64 (keys: standard, binary, 32768-byte, oversize, empty; values: nil, empty, 1B, 8B, 64KiB) interleaved with every log op template of C05 and clean reopens, comparing the stable model and the log bounds after every step, on simfs and on real BoltDB; (b) concurrent per-key register histories on real BoltDB while a writer appends/rotates/truncates, checked by porcupine partitioned by key, race detector on; (c) child processes on real fs + BoltDB doing Set and StoreLogs, SIGKILLed at random acknowledgement counts, three lifetimes per directory: every acknowledged Set must be readable after reopen; (d) under strace, no operation is acknowledged while writes to wal-meta.db are not followed by fdatasync (rule R7 of the C07 trace monitor); non-trivial = distinct (stable op, key/value class, preceding log op kind) contexts",
+	c.Rule("(a) sequential lock-step of Set/Get/SetUint64/GetUint64 (keys: standard, binary, 32768-byte, oversize, empty; values: nil, empty, 1B, 8B, 64KiB) interleaved with every log op template of C05 and clean reopens, comparing the stable model and the log bounds after every step, on simfs and on real BoltDB; (b) concurrent per-key register histories on real BoltDB while a writer appends/rotates/truncates, checked by porcupine partitioned by key, race detector on; (c) child processes on real fs + BoltDB doing Set and StoreLogs, SIGKILLed at random acknowledgement counts, three lifetimes per directory: every acknowledged Set must be readable after reopen; (d) under strace, no operation is acknowledged while writes to wal-meta.db are not followed by fdatasync (rule R7 of the C07 trace monitor); (e) children whose fdatasync / pwrite64 calls fail by strace error injection: a Set that returned nil must be readable in-process and after a fault-free reopen, a failed Set leaves the old or the new value; non-trivial = distinct (stable op, key/value class, preceding log op kind) contexts",
 		"stable_ops", "op_contexts")
 	c.Assume("BoltDB key limits: empty and >32768-byte keys are errors that change nothing", "SIGKILL leaves the OS page cache intact (process-death model, not power loss)")
 	nSeq, nConc, nKill := 200, 6, 3
@@ -520,9 +522,131 @@ func runC08(c *evid.Ctx) {
 		}
 		c.Count("stable_ops", c.Get("acked_operations_checked")-before)
 		c.Distinct("op_contexts", "strace-R7")
+		// (e) I/O errors inside BoltDB's commit, injected by strace into the child's syscalls
+		for i, inj := range []string{"fdatasync:error=EIO:when=5+4", "pwrite64:error=ENOSPC:when=9+7", "fdatasync:error=EIO:when=3+9", "ftruncate:error=EFBIG:when=1+1"} {
+			if quick(c) && i >= 3 {
+				break
+			}
+			c08Faulty(c, c.Seed*911+int64(i), inj)
+		}
 	} else {
 		c.Inconclusive("strace not available: durability of acknowledged Sets against power loss not observed")
 	}
 	c.Sample(map[string]any{"kind": "sequential", "note": "30-70 steps mixing Set/Get classes, C05 log templates and reopens"})
 	c.Sample(map[string]any{"kind": "kill", "note": "child loops Set(k_i,v_i)+StoreLogs on real bolt, parent SIGKILLs after n acks, reopens, compares"})
+}
+
+// c08FaultyChild: Sets on real BoltDB while the parent's strace injects errors
+// into fdatasync / pwrite64. Checks read-your-writes in-process and prints the
+// acknowledged values for the parent's reopen check.
+func c08FaultyChild(args []string) {
+	dir := args[0]
+	seed, _ := strconv.ParseInt(args[1], 10, 64)
+	n, _ := strconv.Atoi(args[2])
+	w, err := wal.Open(dir, wal.WithSegmentSize(4096))
+	if err != nil {
+		fmt.Println("OPENERR", err)
+		os.Exit(3)
+	}
+	rng := rand.New(rand.NewSource(seed))
+	acked := map[string]string{}
+	maybe := map[string][]string{}
+	errs := 0
+	for i := 0; i < n; i++ {
+		key := fmt.Sprintf("k%d", rng.Intn(3))
+		val := fmt.Sprintf("v%d-%s", i, strings.Repeat("x", rng.Intn(3000)))
+		err := w.Set([]byte(key), []byte(val))
+		got, gerr := w.Get([]byte(key))
+		if gerr != nil {
+			fmt.Printf("GETERR %d %v\n", i, gerr)
+			continue
+		}
+		if err == nil {
+			if string(got) != val {
+				fmt.Printf("VIOLATION set-acked-but-not-readable i=%d key=%s got=%d bytes want=%d bytes\n", i, key, len(got), len(val))
+			}
+			acked[key] = val
+			maybe[key] = nil
+		} else {
+			errs++
+			ok := string(got) == acked[key] || string(got) == val
+			for _, m := range maybe[key] {
+				if string(got) == m {
+					ok = true
+				}
+			}
+			if !ok {
+				fmt.Printf("VIOLATION failed-set-left-garbage i=%d key=%s\n", i, key)
+			}
+			maybe[key] = append(maybe[key], val)
+		}
+	}
+	for k, v := range acked {
+		fmt.Printf("FINAL %s %d %x\n", k, len(v), crc32.ChecksumIEEE([]byte(v)))
+		for _, m := range maybe[k] {
+			fmt.Printf("MAYBE %s %d %x\n", k, len(m), crc32.ChecksumIEEE([]byte(m)))
+		}
+	}
+	fmt.Printf("DONE sets=%d errors=%d\n", n, errs)
+	w.Close()
+}
+
+// c08Faulty runs the child under strace with syscall error injection.
+func c08Faulty(c *evid.Ctx, seed int64, inject string) {
+	dir, err := os.MkdirTemp("", "verif-c08f-")
+	if err != nil {
+		return
+	}
+	defer os.RemoveAll(dir)
+	// create the directory without faults first, so that the child's Open does no I/O that can fail
+	if w0, err := drv.OpenDir(dir, drv.Cfg{SegSize: 4096}); err == nil {
+		drv.CloseWAL(w0)
+	}
+	cmd := exec.Command("strace", "-f", "-o", "/dev/null", "-e", "trace="+strings.SplitN(inject, ":", 2)[0], "-e", "inject="+inject,
+		os.Args[0], "-child", "c08-faulty", dir, fmt.Sprint(seed), "60")
+	out, _ := cmd.CombinedOutput()
+	final := map[string][]string{}
+	sets, errs := 0, 0
+	for _, line := range strings.Split(string(out), "\n") {
+		f := strings.Fields(line)
+		if len(f) == 0 {
+			continue
+		}
+		switch f[0] {
+		case "VIOLATION":
+			c.Violation("C08:"+f[1], "with "+inject+" injected into the real BoltDB store: "+line, map[string]any{"seed": seed, "inject": inject})
+		case "FINAL", "MAYBE":
+			final[f[1]] = append(final[f[1]], f[2]+"/"+f[3])
+		case "DONE":
+			fmt.Sscanf(line, "DONE sets=%d errors=%d", &sets, &errs)
+		}
+	}
+	if sets == 0 {
+		c.Inconclusive("fault-injected child produced no result (%.200s)", out)
+		return
+	}
+	c.Count("fault_injected_sets", int64(sets))
+	c.Count("fault_injected_set_errors", int64(errs))
+	c.Count("stable_ops", int64(sets))
+	c.Distinct("op_contexts", "strace-inject|"+strings.SplitN(inject, ":", 2)[0]+fmt.Sprintf("|errors=%v", errs > 0))
+	// reopen without faults: acknowledged values (or a later failed one) must be there
+	w, err := drv.OpenDir(dir, drv.Cfg{SegSize: 4096})
+	if err != nil {
+		c.Violation("C08:reopen-after-injected-faults", fmt.Sprintf("Open after injected %s errors failed: %v", inject, err), map[string]any{"seed": seed})
+		return
+	}
+	defer drv.CloseWAL(w)
+	for k, cands := range final {
+		got, err := w.Get([]byte(k))
+		sig := fmt.Sprintf("%d/%x", len(got), crc32.ChecksumIEEE(got))
+		ok := false
+		for _, cd := range cands {
+			if cd == sig {
+				ok = true
+			}
+		}
+		if err != nil || !ok {
+			c.Violation("C08:acked-set-lost-after-injected-fault", fmt.Sprintf("after %s errors and a reopen Get(%s) = %s (err %v), acknowledged/possible values %v", inject, k, sig, err, cands), map[string]any{"seed": seed})
+		}
+	}
 }
